@@ -6,11 +6,16 @@ PROP = {'level': 'proof',
          'error; reply at once or only after k retransmissions, preceded by garbage and followed by more datagrams; flood of garbage) x '
          'cancellation (context already cancelled / deadline already passed; cancel N ms after the peer received its j-th datagram; '
          'context.WithTimeout; never) x Retry in {-1, 0, 5 ms, 20 ms, 1 h} x MaxPacketErrors in {0,1,3,-1,10} x request codes 1,4,12,40,43, plus a '
-         'request Encode refuses. Observed and reported as classes/booleans (never raw timings): identity of the returned error (nil+packet / '
+         'request Encode refuses; plus an address DialContext refuses at once (no port / port 99999 / unixgram path that does not exist / unknown '
+         'network: the dial error - or the error of a context that was done already - comes back, nothing reaches a listener of the harness), and '
+         'Client.Net = unixgram with a peer that takes the first datagram and is then closed and unlinked (every retransmission fails while the '
+         'Read stays pending; cancellation or a deadline must still end the call); every scenario with the context either of a standard library '
+         'type or (about half) of a user-defined type with its own Done channel. Observed and reported as classes/booleans (never raw timings): identity of the returned error (nil+packet / '
          'context.Canceled / context.DeadlineExceeded by ==, net error, parse error, NonAuthenticResponseError), the first datagram at the peer, '
          'byte-identity of all datagrams the peer received, their number (exactly one when Retry <= 0; between elapsed/Retry/3-2 and elapsed/Retry+2 '
          'otherwise), return within 250 ms of the cancellation, nothing at the peer after a sentinel datagram sent at the moment of return during '
-         'max(50 ms, 3 x Retry), no goroutine with radius.(*Client).Exchange on its stack and /proc/self/fd back to its size 200 ms after the return; '
+         'max(50 ms, 3 x Retry), no goroutine with radius.(*Client).Exchange on its stack, no more goroutines in the process than before the call (the harness\'s own, counted '
+         'one by one, excluded: this sees goroutines parked in the context package for the call) and /proc/self/fd back to its size 200 ms after the return; '
          'a watchdog turns a call that does not return into the observation HANG. Scenarios run one at a time per process. The timing-dependent '
          'clauses (promptness, resend count with Retry > 0, goroutine census, descriptor count) are re-measured: a scenario in which one fails is '
          'run up to two more times and the clause is reported only if it fails in all three runs. The Lean side runs the logic machine on the '
